@@ -13,6 +13,7 @@ import (
 	"io"
 	"net/http"
 	"os"
+	"reflect"
 	"regexp"
 	"runtime"
 	"runtime/debug"
@@ -167,6 +168,9 @@ type execState struct {
 }
 
 func (s *execState) attempt() int {
+	if s.rq == nil {
+		return 0
+	}
 	n := s.rq.RetryAttempt
 	if n >= len(s.p.Attempts) {
 		n = len(s.p.Attempts) - 1
@@ -179,7 +183,11 @@ func (s *execState) attempt() int {
 
 func (s *execState) ev(kind string, i int) {
 	s.mu.Lock()
-	s.log = append(s.log, logEv{Kind: kind, I: i, Attempt: s.rq.RetryAttempt})
+	a := 0
+	if s.rq != nil {
+		a = s.rq.RetryAttempt
+	}
+	s.log = append(s.log, logEv{Kind: kind, I: i, Attempt: a})
 	s.mu.Unlock()
 }
 
@@ -325,6 +333,12 @@ func (s *execState) wrapFunc(i int) req.RoundTripWrapperFunc {
 	}
 }
 
+var pkgFuncs = map[string]interface{}{
+	"Get": req.Get, "Post": req.Post, "Put": req.Put, "Patch": req.Patch, "Delete": req.Delete, "Head": req.Head, "Options": req.Options,
+	"MustGet": req.MustGet, "MustPost": req.MustPost, "MustPut": req.MustPut, "MustPatch": req.MustPatch, "MustDelete": req.MustDelete,
+	"MustHead": req.MustHead, "MustOptions": req.MustOptions,
+}
+
 const fabBody = `{"a":3,"msg":"made up","code":3}`
 
 // the download target: fails when the body being written is scripted to
@@ -432,6 +446,9 @@ func execute(p *progSpec, origin *realOrigin) (o obsT, res *okT, er *errT) {
 		a0 := p.Attempts[0]
 		nUd, nW, nCli, nReq = len(a0.Ud), len(a0.Wraps), len(a0.Cli), len(a0.Req)
 	}
+	if strings.HasPrefix(p.Entry, "pkg.") {
+		c.OnBeforeRequest(func(c *req.Client, r *req.Request) error { st.rq = r; return nil })
+	}
 	for i := 0; i < nUd; i++ {
 		i := i
 		c.OnBeforeRequest(func(c *req.Client, r *req.Request) error {
@@ -473,7 +490,12 @@ func execute(p *progSpec, origin *realOrigin) (o obsT, res *okT, er *errT) {
 		return json.Marshal(v)
 	})
 
+	pkg := strings.HasPrefix(p.Entry, "pkg.")
 	rq := c.R()
+	if pkg {
+		// the function creates its own request: it is captured by a silent first request middleware
+		rq = nil
+	}
 	st.rq = rq
 	if p.AutoRead == 2 {
 		rq.DisableAutoReadResponse()
@@ -518,7 +540,9 @@ func execute(p *progSpec, origin *realOrigin) (o obsT, res *okT, er *errT) {
 	ctx, cancel := context.WithCancel(context.Background())
 	st.cancel = cancel
 	defer cancel()
-	rq.SetContext(ctx)
+	if !pkg {
+		rq.SetContext(ctx)
+	}
 	if p.Retry {
 		rq.SetRetryCount(p.Max)
 		rq.SetRetryInterval(func(resp *req.Response, attempt int) time.Duration {
@@ -570,20 +594,35 @@ func execute(p *progSpec, origin *realOrigin) (o obsT, res *okT, er *errT) {
 				}
 			}
 		}()
-		switch p.Entry {
-		case "do":
+		switch {
+		case p.Entry == "do":
 			rq.Method, rq.RawURL = "POST", url
 			resp = rq.Do()
-		case "send":
+		case p.Entry == "send":
 			resp, err = rq.Send("POST", url)
-		case "get":
-			resp, err = rq.Get(url)
-		case "post":
-			resp, err = rq.Post(url)
-		case "mustget":
-			resp = rq.MustGet(url)
-		case "mustpost":
-			resp = rq.MustPost(url)
+		case pkg: // package-level function on the default client
+			old := req.DefaultClient()
+			req.SetDefaultClient(c)
+			defer req.SetDefaultClient(old)
+			switch f := pkgFuncs[strings.TrimPrefix(p.Entry, "pkg.")].(type) {
+			case func(string) (*req.Response, error):
+				resp, err = f(url)
+			case func(string) *req.Response:
+				resp = f(url)
+			default:
+				o.RtPanic = "harness: no package-level function " + p.Entry
+			}
+		default: // method of *Request named in the generated table
+			m := reflect.ValueOf(rq).MethodByName(p.Entry)
+			if !m.IsValid() {
+				o.RtPanic = "harness: no method Request." + p.Entry
+				return
+			}
+			outs := m.Call([]reflect.Value{reflect.ValueOf(url)})
+			resp, _ = outs[0].Interface().(*req.Response)
+			if len(outs) > 1 {
+				err, _ = outs[1].Interface().(error)
+			}
 		}
 	}()
 	select {
@@ -594,7 +633,9 @@ func execute(p *progSpec, origin *realOrigin) (o obsT, res *okT, er *errT) {
 	}
 	o.Log = append([]logEv{}, st.log...)
 	o.Output = st.out.String()
-	if p.ReqErr == 0 {
+	if pkg {
+		o.Iters = 1
+	} else if p.ReqErr == 0 {
 		o.Iters = rq.RetryAttempt + 1
 		if st.sleepCut { // RetryAttempt was incremented, the next iteration never started
 			o.Iters--
